@@ -100,7 +100,7 @@ class Probes:
 def one_set(ctx, idx, probes):
     R = random.Random("c10/%s/%d" % (ctx.seed, idx))
     d = os.path.join(ctx.scratch, "s%d" % idx)
-    profile = "hostile" if idx % 2 else "codec"
+    profile = "codec" if idx % 4 == 0 else "hostile"
     roots, parsed, _ = dsdlgen.make_set(os.path.join(d, "dsdl"), "c10/%s/%d" % (ctx.seed, idx), profile, nroots=2, docs=True)
     from nunavut._postprocessors import LimitEmptyLines, TrimTrailingWhitespace
     import copy
